@@ -62,6 +62,12 @@ fn write_replay(prop: &dyn Property, seed: u64, tier: Tier, tape: &[u32], desc: 
 	path
 }
 
+/// saves a failing tape found outside the runner (fuzz stage) as an ordinary replay file
+pub fn save_replay(prop: &dyn Property, tape: &[u32], f: &Failure) -> PathBuf {
+	let desc = describe(prop, tape, Tier::Quick, false);
+	write_replay(prop, seed_from_env(), Tier::Quick, tape, &desc, f)
+}
+
 pub fn read_tape(path: &Path) -> Result<Vec<u32>, String> {
 	let text = std::fs::read_to_string(path).map_err(|e| format!("{}: {e}", path.display()))?;
 	let v: Value = serde_json::from_str(&text).map_err(|e| format!("{}: {e}", path.display()))?;
